@@ -63,7 +63,7 @@ func c05Metas() []c05Meta {
 		m.ModTime = t
 		out = append(out, m)
 	}
-	for _, t := range []string{"", "text/plain; charset=utf-8", `application/x-weird+xml; a="b c"`, "x/y"} {
+	for _, t := range []string{"", "text/plain; charset=utf-8", `application/x-weird+xml; a="b c"`, "x/y", "Text/HTML; Charset=UTF-8", "text/plain;charset=utf-8", `text/x; b=2; a="q"`} {
 		m := base
 		m.MIME = t
 		out = append(out, m)
